@@ -28,6 +28,7 @@
 typedef struct { int ip; int sp; int rc; uint16_t st[RE_MAX_STACK]; } EXP;
 
 static uint8_t code[32];
+static void fill_code(void) { for (int i = 0; i < 32; i++) code[i] = RE_OPCODE_ANY; }
 
 static int state_is(const RE_FIBER* f, const EXP* e)
 {
@@ -42,7 +43,7 @@ int main(void)
   static RE_FIBER P[3], A, F, B;
   RE_FIBER_POOL pool;
   RE_FIBER_LIST l;
-  for (int i = 0; i < 32; i++) code[i] = RE_OPCODE_ANY;
+  fill_code();
   code[AT] = VF_OP;
   /* pool of 3 free fibers (a scanner that has run before) */
   for (int i = 0; i < 3; i++) { P[i].prev = i ? &P[i - 1] : NULL; P[i].next = i < 2 ? &P[i + 1] : NULL; }
@@ -50,9 +51,14 @@ int main(void)
   pool.fibers.tail = &P[2];
   pool.fiber_count = 5;
 
-  int has_a = vf_bool(), has_b = vf_bool();
+  /* neighbours are compile-time (VF_NEIGH): a symbolic list shape makes the loop condition of _yr_re_fiber_sync symbolic (no verdict in 300 s) */
+  int has_a = VF_NEIGH & 1, has_b = (VF_NEIGH >> 1) & 1;
   F.ip = code + AT;
+#ifdef VF_SP
+  F.sp = VF_SP; /* enumerated: a symbolic stack depth does not finish for the repeat instructions */
+#else
   F.sp = (int32_t) vf_range(0, 3) - 1; /* -1..2 */
+#endif
   F.rc = (int32_t) vf_range(0, 4) - 1; /* -1..3 */
   for (int j = 0; j < RE_MAX_STACK; j++) F.stack[j] = (uint16_t) vf_range(0, 3);
   A.ip = code + 1; A.sp = -1; A.rc = -1;
